@@ -167,6 +167,8 @@ def withShuffle (d : DSt) (op : Rec) (obs : List Rec) : DSt :=
 def stepRec (d : DSt) (r : Rec) : DSt × List Rec × List String :=
   if r.name == "cat" then ({ d with cat := d.cat ++ [cfgOfRec r] }, [], [])
   else if r.name == "mutsnap" then (d, [1, 2, 3].map (listRec d.cat d.st ·), ["mutsnap"])
+  -- the unit's HP is set (possibly to zero): neither its attached instances nor its stats depend on whether it lives
+  else if r.name == "life" then (d, [1, 2, 3].map (listRec d.cat d.st ·), ["life"])
   else
   match opOfRec r with
   | none => (d, [Rec.mk' "badop"], [])
